@@ -36,6 +36,10 @@ def _regen_boc_cnt():
     from ..translate import boccnt
     return boccnt.regenerate()
 
+def _regen_ctor_cnt():
+    from ..translate import ctorcnt
+    return ctorcnt.regenerate()
+
 
 def _regen_tl_parser():
     from ..translate import tlengine
@@ -106,7 +110,12 @@ SPEC = dict(
              'and are EQUAL to them when the parse returns (they can be smaller when the parse raises for a reason the cost model does not follow); nothing else ticks but the completion-tag search (<= 7 per cell); hence the three '
              'loops of the code as written start <= len+1 iterations and all five <= 3*len+5. The tick placement is validated against CPython (first-body-line events of the six for statements = the ticks Lean counts) on 262 bags per change. '
              'Proving the bridge found the cost model stale: bocGuarded still had the header pre-check 1+5*size_bytes of before fix 36d5bc1 (the library has 1+3*size_bytes), so bocCost was 0 on accepted bags of 6+3s..6+5s-1 bytes; corrected. '
-             'The header comprehensions and the CRC loop (bocCost.hdr / crc), the unary-loop iterations (dictParse steps) and the TL / order / constructor counters remain cost model + measurement. '
+             'SOURCE TIE of the constructor\'s hash work (c19_src_ctor_erase, c19_src_hash_work, c19_src_build_linear): the text regenerated from cell.py for Cell.__init__ / resolve_mask / calculate_hashes is put, by the same '
+             'transformation (harness/translate/ctorcnt.py), into the iteration-counting writer (every List.foldlM becomes Py.foldW? k; Generated/CellCtorCnt.lean). Lean proves for EVERY call: the copy computes exactly the regenerated '
+             'constructor; the loops of resolve_mask + calculate_hashes start <= ctorSteps(lv, d) = d + lv(1+2d) iterations with lv = bit_length(level mask)+1 and d = len(refs) (the cost model\'s count, now about the code as written); '
+             'for a cell that is not a pruned branch whose children have level <= 3 (closed under the constructor: resolve_mask_le) the level loop starts <= 4 iterations, each touching every reference once per inner loop: <= 4+9d per cell, '
+             '<= 4n+9e for n constructor calls carrying e references. The constructor reads the children only through r.mask / get_depth / get_hash (loop-free list lookups). Tick placement validated against CPython on 94 DAGs per change. '
+             'The header comprehensions and the CRC loop (bocCost.hdr / crc), the unary-loop iterations (dictParse steps), the number of bytes fed to SHA-256 (buildBytes) and the TL / order / to_boc for-loop counters remain cost model + measurement. '
              'TL PARSER ON THE SOURCE: TlSchemas.deserialize is regenerated from tl/generator.py on every run (Generated/TlEngine.lean, shared with C14) and proved equal to the C14 hand model for all inputs; c19_src_tl_total (Properties/C14.lean, which can import that model) proves that for every table with distinct field names and no cycle of bare references and EVERY byte string the regenerated code run with recursion depth (len/4+1)(R+2) and len+2 iterations of its while loop returns what it returns with any larger budgets - no loop or recursion of the code as written runs beyond a bound in the input length (each while iteration consumes >= 1 content byte or breaks; the vector loop is bounded by the guard); the step COUNT stays the cost model\'s (c19_tl_total).',
         level_note='Trusted: Lean kernel (propext, Classical.choice, Quot.sound); Model/Cost.lean as a hand transcription of the loops of '
                    'cell.py (order, to_boc, __init__/calculate_hashes), deserialize.py, hashmap/parse.py, tl/generator.py (upper-bound '
@@ -123,8 +132,9 @@ SPEC = dict(
                  (_emit_tie_name(), _regen_boc_emitter),
                  ('hashmap/parse.py parse + deserialize_hashmap_node->Generated/HashmapCnt.lean (calls counted)', _regen_dict_cnt),
                  ('deserialize.py deserialize_cell, deserialize->Generated/BocCnt.lean (loop iterations counted)', _regen_boc_cnt),
-                 ('tl/generator.py TlSchemas.deserialize->Generated/TlEngine.lean (c19_src_tl_total, stated in Properties/C14.lean)', _regen_tl_parser)],
-    lean_targets=['TonVerif.Proofs.SrcBocDeser', 'TonVerif.Proofs.SrcOrderAny', 'TonVerif.Proofs.SrcBocAny', 'TonVerif.Proofs.SrcBocCnt', 'TonVerif.Proofs.SrcTlParser'],
+                 ('tl/generator.py TlSchemas.deserialize->Generated/TlEngine.lean (c19_src_tl_total, stated in Properties/C14.lean)', _regen_tl_parser),
+                 ('cell.py Cell.__init__, resolve_mask, calculate_hashes->Generated/CellCtorCnt.lean (loop iterations counted)', _regen_ctor_cnt)],
+    lean_targets=['TonVerif.Proofs.SrcBocDeser', 'TonVerif.Proofs.SrcOrderAny', 'TonVerif.Proofs.SrcBocAny', 'TonVerif.Proofs.SrcBocCnt', 'TonVerif.Proofs.SrcTlParser', 'TonVerif.Proofs.SrcCtorCnt'],
     design_ref='DESIGN.md §6 C19',
     rule='one case = one public call on one adversarial input with its model step count; families: double/triple-ref chains 10..1000, '
          'depth-1023 chains, diamonds, wide sharing, random DAGs (order, to_boc x flag sets, from_boc, construction); BoC byte strings '
